@@ -3,6 +3,7 @@
 //! or records executions of the real code as ndjson traces for TLC to validate.
 mod absdev;
 mod cachedrv;
+mod concdrv;
 mod crashdrv;
 mod fsm;
 mod layout;
@@ -22,6 +23,7 @@ fn main() {
         "seq" => seqdrv::main(rest),
         "cache" => cachedrv::main(rest),
         "crash" => crashdrv::main(rest),
+        "conc" => concdrv::main(rest),
         "recover" => crashdrv::recover_main(rest),
         "clocksat" => seqdrv::clocksat(rest),
         "layout-selftest" => layout::selftest(rest.first().map(|s| s.as_str()).unwrap_or("/dev/shm/fxv-layout")),
